@@ -89,6 +89,70 @@ func c06Request(r gen.R) *sl.Req {
 	return req
 }
 
+var c06ChainsUsed = map[string]bool{}
+
+// c06FreshChain draws a transformation chain this process has never interned before.
+func c06FreshChain(r gen.R) []string {
+	pool := []string{"lowercase", "uppercase", "trim", "trimLeft", "trimRight", "length", "removeNulls", "hexEncode", "base64Encode", "md5", "sha1"}
+	for {
+		n := 3 + r.IntN(3)
+		ch := make([]string, n)
+		for i := range ch {
+			ch[i] = gen.Pick(r, pool)
+		}
+		k := fmt.Sprint(ch)
+		if !c06ChainsUsed[k] {
+			c06ChainsUsed[k] = true
+			return ch
+		}
+	}
+}
+
+// c06ConcurrentConstruction builds several WAFs at the same moment, each introducing transformation chains
+// never seen before in the process (so that their interning races), then probes each and compares with the
+// reference model: a chain must keep meaning its own list of transformations.
+func c06ConcurrentConstruction(w *fw.W, round int) {
+	const k = 8
+	progs := make([]*sl.Program, k)
+	for i := range progs {
+		p := &sl.Program{Engine: "On"}
+		for j := 0; j < 3; j++ {
+			p.Items = append(p.Items, sl.Item{Rule: &sl.Rule{ID: 10 + j, Phase: 2, Severity: -1, Targets: []sl.Sel{{Var: "ARGS_GET"}},
+				Trans: c06FreshChain(w.Rng), Op: &sl.Op{Name: "verifrec", Arg: fmt.Sprintf("cc%d_%d_%d true", round, i, j)}}})
+		}
+		progs[i] = p
+	}
+	req := &sl.Req{Method: "GET", Path: "/cc", Status: 200, Get: []sl.KV{{K: "a", V: " AbC "}, {K: "b", V: "x\x00Y"}, {K: "c", V: "Zz"}}}
+	start := make(chan struct{})
+	var wg sync.WaitGroup
+	for i := 0; i < k; i++ {
+		wg.Add(1)
+		go func(i int) {
+			defer wg.Done()
+			<-start
+			text := progs[i].Render()
+			waf, err := sl.BuildText(text)
+			if err != nil {
+				w.Violation("concurrent-construction-build-fails", "construction", map[string]any{"config": text}, nil, nil, err.Error())
+				return
+			}
+			defer sl.CloseWAF(waf)
+			exp := sl.Run(progs[i], req)
+			got := sl.Exec(waf, req)
+			w.Eval(1)
+			w.Count("concurrently_constructed_wafs_probed", 1)
+			if exp.Ambiguous != "" {
+				return
+			}
+			if d := sl.Compare(exp, got, sl.CompareOpts{TX: true}); d != "" {
+				w.Violation("waf-built-concurrently-misbehaves:"+sl.DiffKind(d), "reference-model", map[string]any{"config": text, "req": req}, exp, got, d)
+			}
+		}(i)
+	}
+	close(start)
+	wg.Wait()
+}
+
 type c06Params struct {
 	Variant    int `json:"variant"`
 	Goroutines int `json:"goroutines"`
@@ -218,6 +282,9 @@ func c06Run(w *fw.W, b fw.Batch) {
 		bwg.Wait()
 		w.Count("concurrent_transactions", total)
 		w.Count("rounds", 1)
+		for k := 0; k < 6; k++ {
+			c06ConcurrentConstruction(w, round*10+k)
+		}
 		// quiescent point: only `shared` is open -> every cache entry must be owned by it alone
 		if verifapi.MemoizeCompiledIn {
 			own := verifapi.MemoizerID(shared)
@@ -262,9 +329,9 @@ func c06Run(w *fw.W, b fw.Batch) {
 func init() {
 	fw.Register(&fw.Prop{
 		ID: "C06", Level: "exploration",
-		Rule: "G goroutines each run T generated transactions on ONE shared WAF (rules with several target exclusions extended at run time by ctl:ruleRemoveTargetById, shared transformation chains, @rx/@pm/@restpath/@validateNid patterns, captures, setenv, serial or concurrent audit writer) while builder goroutines construct, probe and close other WAFs that share the same pattern strings; under the Go race detector (-race, which also enables checkptr), GOMAXPROCS in {2,4,16}, with seeded Gosched/sleep yields injected at the pattern cache, the transaction pool and the transformation-id table. Monitors: race/fatal reports (de-duplicated by conflicting coraza frames), per-transaction differential against the outcome computed sequentially beforehand, pattern-cache owner invariant at quiescent points. Non-trivial: a concurrent transaction with more than one fired rule that was compared; distinct by (request, position, round).",
+		Rule: "G goroutines each run T generated transactions on ONE shared WAF (rules with several target exclusions extended at run time by ctl:ruleRemoveTargetById, shared transformation chains, @rx/@pm/@restpath/@validateNid patterns, captures, setenv, serial or concurrent audit writer) while builder goroutines construct, probe and close other WAFs that share the same pattern strings; in every round 8 WAFs introducing never-seen transformation chains are also constructed at the same moment and probed against the reference model; under the Go race detector (-race, which also enables checkptr), GOMAXPROCS in {2,4,16}, with seeded Gosched/sleep yields injected at the pattern cache, the transaction pool and the transformation-id table. Monitors: race/fatal reports (de-duplicated by conflicting coraza frames), per-transaction differential against the outcome computed sequentially beforehand, pattern-cache owner invariant at quiescent points. Non-trivial: a concurrent transaction with more than one fired rule that was compared; distinct by (request, position, round).",
 		Assumptions: []string{"a clean race-detector run covers only the accesses executed under the schedules that occurred", "transactions whose sequential outcome is not stable over three runs are excluded from the differential (C04's business)"},
-		Required:    []string{"concurrent_transactions", "builder_wafs_built_and_closed", "snapshot_checks", "yields_taken", "yield_site:pool.get", "yield_site:memo.do.afterLoad", "yield_site:tid.lock"},
+		Required:    []string{"concurrently_constructed_wafs_probed", "concurrent_transactions", "builder_wafs_built_and_closed", "snapshot_checks", "yields_taken", "yield_site:pool.get", "yield_site:memo.do.afterLoad", "yield_site:tid.lock"},
 		Plan: func(tier fw.Tier, seed int64) []fw.Batch {
 			var bs []fw.Batch
 			add := func(variant, procs, g, per, builders, rounds int) {
